@@ -121,4 +121,25 @@ CHECKS = {
           "judged by TLC: connected and keyed only if the signed parameters and signature are verbatim, otherwise no key."),
     note=("Unforgeability of ECDSA and secrecy of ECDH/HKDF are assumed (symbolic abstraction). Fresh random key pairs each run (sampled). Two server sessions, one client. "
           "The lock-step server harness is trusted.")),
+ "C13": dict(
+    level="exploration",
+    technique="TLC-enumerated value grammar and channel sequences (specs/Codec.tla, Obs_Codec); real serialize_value/deserialize_value/dumpb/loadb observed on every term; TLC judges normal form, exact consumption and refusal",
+    text=("Codec.tla states the abstract contract (domain, normal form: tuples -> lists except where only a tuple can exist, floats at float32 precision; a FIFO channel of values). TLC enumerates atoms at every integer-width and float boundary, "
+          "strings and bytes incl. over-long ones, containers of them, containers of containers, fixture objects, enum members, unsupported types, and sequences written one after another; the harness encodes and decodes each with the real module and "
+          "abstracts the result back into a term; TLC judges: in the domain -> decoded equals the normal form and exactly the produced bytes were consumed (trailing bytes untouched); outside -> refused with an error."),
+    note="Bounded grammar (depth 2, <= 2 elements per container) plus random deep values in the thorough tier. The abstraction function is trusted. Byte layout is not constrained."),
+ "C14": dict(
+    level="exploration",
+    technique="TLC model checking of the pushdown transcription specs/Decoder.tla (bounded work) whose token strings, concretised with the live type ids, plus truncations / bit flips / crafted lengths / deep nesting / random bytes are fed to the real decoder under instrumentation; TLC judges every observation (Obs_Decoder)",
+    text=("Decoder.tla is a token grammar of adversarial inputs and a small transcription of the decoder for which TLC checks that the number of invocations is bounded by the input size whatever lengths the input announces. "
+          "Every token string of the model, every truncation and single-bit flip of valid encodings (incl. a genuine client hello), crafted maximal / negative / non-integer length fields, wide collections of tiny elements, nesting beyond the recursion limit and random bytes "
+          "go to Serializable.loadb and to the server's _recvClientHello; measured per input: outcome, deserialize_value invocations, tracemalloc peak, watchdog. TLC judges: value of supported/registered types or ordinary exception, invocations <= n/2 + 8, peak <= 64 n + 1 MiB."),
+    note="Resource bounds are measured, Python-level allocations only; constants in specs/Obs_Decoder.tla. loadz (gzip) out of scope."),
+ "C15": dict(
+    level="exploration",
+    technique="TLC-enumerated field assignments (every single choice and every pair) of a fixture class with one field per documented annotated shape; real fromJson/toJson/loads/dumps observed; TLC judges field-for-field equality (Obs_Json)",
+    text=("The fixture class has 19 fields covering basic types, enum, nested Serializable, List/Set/Dict/Tuple of basic / enum / Serializable with int, str and enum keys; TLC enumerates every value choice per field (empty containers, None for container fields, "
+          "negative and > 2^53 ints, unicode) and every pair of choices; the harness runs fromJson(toJson(x)), loads(dumps(x)) and json.dumps(toJson(x)); TLC judges that both round trips reproduce every overridden field as a term of the same type "
+          "(sets stay sets, tuples tuples, int and enum keys keep their type) and leave the other fields at their defaults."),
+    note="One level of generic containers as documented; Tuple fields hold tuples of the annotated length; the abstraction function is trusted."),
 }
